@@ -1178,6 +1178,39 @@ def ir_term(entry, el, direction, kind, wl):
         if fwd:
             return fam('fibreForward', a_mat(P.T * (el.input_grid.weights * np.ones(P.shape[0]))[None, :]))
         return fam('fibreBackward', a_mat(P))
+    if fam_ == 'fraunhofer' and cname == 'FraunhoferPropagator':
+        # fourier_transform.forward(E) * norm_factor / fourier_transform.backward(E) / norm_factor: the element's own
+        # Fourier-transform object as a matrix (columns = images of the unit vectors) and the scalar it computed
+        inst = el.get_instance_data(entry.input_grid, None, wl)
+        ft = inst.fourier_transform
+        c = complex(inst.norm_factor)
+        if fwd:
+            return fam('scaledTransform', a_vec([c]), a_mat(probe_field_map(ft.forward, ft.input_grid)))
+        return fam('scaledTransform', a_vec([1 / c]), a_mat(probe_field_map(ft.backward, ft.output_grid)))
+    if fam_ == 'filter' and cname in ('FresnelPropagator', 'AngularSpectrumPropagator'):
+        # FourierFilter: cut-out(ifft(tf * fft(zero-pad(E)))), conj(tf) for backward -- with the filter's own transfer
+        # function (as the call left it), internal grid and cut-out
+        ff = el.get_instance_data(entry.input_grid, None, wl).fourier_filter
+        ff._compute_functions(hcipy.Field(np.zeros(entry.input_grid.size, dtype=complex), entry.input_grid))
+        tf = np.asarray(ff._transfer_function, dtype=complex)
+        ishape = tuple(ff.internal_grid.shape)
+        if tf.shape != ishape:
+            return None                          # a matrix-valued transfer function: no scalar sandwich
+        n_in, n_int = entry.input_grid.size, int(np.prod(ishape))
+        cut = ff.cutout if ff.cutout is not None else tuple([slice(None)] * len(ishape))
+        Pf = np.zeros((n_int, n_in), dtype=complex)
+        for k in range(n_in):
+            pad = np.zeros(ishape, dtype=complex)
+            e = np.zeros(n_in, dtype=complex)
+            e[k] = 1.0
+            pad[cut] = e.reshape(entry.input_grid.shape)
+            Pf[:, k] = np.fft.fftn(pad).ravel()
+        Pb = np.zeros((n_in, n_int), dtype=complex)
+        for j in range(n_int):
+            u = np.zeros(n_int, dtype=complex)
+            u[j] = 1.0
+            Pb[:, j] = np.fft.ifftn(u.reshape(ishape))[cut].ravel()
+        return fam('sandwich', a_mat(Pb), a_vec(tf.ravel() if fwd else tf.ravel().conj()), a_mat(Pf))
     if fam_ == 'projection':
         return fam('projection', a_mat(el.transformation), a_vec(el.coeffs), a_mat(el.transformation_inverse))
     if fam_ == 'lyot' and cname == 'LyotCoronagraph':
@@ -1760,6 +1793,13 @@ def run(ctx):
             ctx.count('effects-program:none')
         if obs['multi']:
             continue
+        if e.family == 'filter':
+            # the padded FFT matrices of a FourierFilter make a 1.7 MB request: their own budget (entries x directions first)
+            left = pc_budget.setdefault('filter-term', ctx.scale(4, 48))
+            if left <= 0 or case['kind'] != 'scalar' or (ctx.quick() and case['wavelength'] != e.wavelengths[0]):
+                ctx.count('denote-filter-term-skipped-budget')
+                continue
+            pc_budget['filter-term'] = left - 1
         try:
             term = ir_term(e, el, case['direction'], case['kind'], case['wavelength'])
         except Exception as ex:     # noqa
